@@ -29,6 +29,8 @@ type Ctx struct {
 	gScope  map[*ssa.Function]bool
 
 	startReach map[*ssa.Function]bool
+	sslS, sslN *ssa.Global
+	sslDone    bool
 	sum        *core.Summaries
 	mods       *core.ModSets
 }
@@ -455,7 +457,7 @@ func pathOf(v ssa.Value) (ssa.Value, string) {
 			switch a := x.X.(type) {
 			case *ssa.FieldAddr:
 				fr, _ := core.FieldOfAddr(a)
-				path = "." + fr.Name + path
+				path = "." + core.CanonFieldName(fr.Struct, fr.Name) + path
 				v = a.X
 				continue
 			case *ssa.IndexAddr:
@@ -466,13 +468,13 @@ func pathOf(v ssa.Value) (ssa.Value, string) {
 			return v, path
 		case *ssa.Field:
 			fr, _ := core.FieldOfValue(x)
-			path = "." + fr.Name + path
+			path = "." + core.CanonFieldName(fr.Struct, fr.Name) + path
 			v = x.X
 			continue
 		case *ssa.FieldAddr:
 			// the address of a struct-typed field on the way to one of its members (&s.origin -> .file)
 			fr, _ := core.FieldOfAddr(x)
-			path = "." + fr.Name + path
+			path = "." + core.CanonFieldName(fr.Struct, fr.Name) + path
 			v = x.X
 			continue
 		case *ssa.MakeInterface:
